@@ -39,6 +39,7 @@ Definition dir_if (dname : str) (ds : list directive) (vs : vars) : outcome (opt
           match a_val a with
           | VVar n _ =>
               match alookup (n_val n) vs with
+              | Some PNone => Rejected REJ_COERCION 0   (* null for the non-null `if` (since fix C07-03) *)
               | Some v => Ok (Some v)
               | None => Rejected REJ_COERCION 0
               end
